@@ -14,14 +14,61 @@ from simple_parsing.helpers import field as sp_field
 
 
 ENUM_MIXINS = {"Level": str, "Prio": int}
+POSTPONED_MODULE = "verif_postponed_ns"
 
 
 class Universe:
     """Classes and enums of one case (fresh objects per case: no cross-case registry leakage)."""
 
-    def __init__(self):
+    def __init__(self, postponed: bool = False):
         self.classes: dict[str, type] = {}
         self.enums: dict[str, type] = {}
+        # postponed=True: the classes are declared the way a module with `from __future__ import annotations` declares
+        # them - every annotation is a STRING (builtin generics, `X | None`), resolved by simple-parsing against the
+        # defining module's globals; that module is the synthetic POSTPONED_MODULE, emptied for each universe.
+        self.postponed = postponed
+        if postponed:
+            import sys, types
+            mod = sys.modules.get(POSTPONED_MODULE)
+            if mod is None:
+                mod = sys.modules[POSTPONED_MODULE] = types.ModuleType(POSTPONED_MODULE)
+            for k in [k for k in vars(mod) if not k.startswith("__")]:
+                delattr(mod, k)
+            mod.Path = pathlib.Path
+            mod.Literal = Literal
+            mod.Optional = Optional
+            mod.Union = Union
+            self.module = mod
+
+    def ty_src(self, t: dict) -> str:
+        """the annotation of `t` as source text (PEP 585 generics, PEP 604 unions)"""
+        k = t["k"]
+        if k in ("int", "float", "str", "bool"):
+            return k
+        if k == "path":
+            return "Path"
+        if k == "enum":
+            self.enum(t["cls"], t["members"], t.get("values"))
+            return t["cls"]
+        if k == "literal":
+            return "Literal[" + ", ".join(repr(self.val(v)) for v in t["vals"]) + "]"
+        if k == "list":
+            return f"list[{self.ty_src(t['item'])}]"
+        if k == "tuple":
+            return "tuple[" + ", ".join(self.ty_src(x) for x in t["items"]) + "]"
+        if k == "vtuple":
+            return f"tuple[{self.ty_src(t['item'])}, ...]"
+        if k == "set":
+            return f"set[{self.ty_src(t['item'])}]"
+        if k == "dict":
+            return f"dict[{self.ty_src(t['key'])}, {self.ty_src(t['val'])}]"
+        if k == "opt":
+            return f"{self.ty_src(t['inner'])} | None"
+        if k == "union":
+            return " | ".join(self.ty_src(x) for x in t["alts"])
+        if k == "dc":
+            return t["cls"]
+        raise ValueError(k)
 
     # -- types ---------------------------------------------------------------------------------
     def enum(self, name: str, members: list[str], values: list | None = None):
@@ -29,6 +76,8 @@ class Universe:
             vals = values if values is not None else list(range(len(members)))
             # mixed-in enums (class X(str, Enum) / IntEnum): members ARE str / int instances as well
             self.enums[name] = enum.Enum(name, dict(zip(members, vals)), type=ENUM_MIXINS.get(name))
+            if self.postponed:
+                setattr(self.module, name, self.enums[name])
         return self.enums[name]
 
     def ty(self, t: dict):
@@ -141,9 +190,13 @@ class Universe:
                 fld = sp_field(**kw, **extra)
             else:
                 fld = dataclasses.field(**kw)
-            fields.append((f["name"], self.ty(f["ty"]), fld))
+            fields.append((f["name"], self.ty_src(f["ty"]) if self.postponed else self.ty(f["ty"]), fld))
         bases = tuple(self.classes[b] for b in spec.get("bases", []))
-        cls = dataclasses.make_dataclass(name, fields, bases=bases, frozen=spec.get("frozen", False))
+        if self.postponed:
+            cls = dataclasses.make_dataclass(name, fields, bases=bases, frozen=spec.get("frozen", False), module=POSTPONED_MODULE)
+            setattr(self.module, name, cls)
+        else:
+            cls = dataclasses.make_dataclass(name, fields, bases=bases, frozen=spec.get("frozen", False))
         self.classes[name] = cls
         return cls
 
